@@ -232,6 +232,28 @@ def run_hand(case, rec=None):
             fails.append({'case': {'formulas': [t]}, 'expected': repr(outcome_norm(vg))[:300], 'actual': repr(outcome_norm(vh))[:300],
                           'relation': 'hand-written-subclass-computes-the-same',
                           'bucket': 'hand:' + (fn[0] if fn else 'operators') + ':' + (vh[1] if vh[0] != 'value' else 'value'), 'extra': None})
+    if fails:
+        return fails
+    # two executors per class: one is given overrides and evaluated, then the other one (never given anything) is read - on the
+    # generated class and on the hand-written subclass alike
+    seen = {}
+    for name, cls_ in (('generated', gen), ('hand', hand)):
+        first = wbk.Executor().set_executed_class(class_object=cls_)
+        second = wbk.Executor().set_executed_class(class_object=cls_)
+        first.set_cells([wbk.Cell('S', 'A', '1', 1000), wbk.Cell('S', 'A', '2', 'changed'), wbk.Cell('S', 'D', '1', -5)])
+        out = []
+        for t, a in zip(texts, addrs):
+            c, r = wbk.split_a1(a)
+            wbk.outcome(lambda: first.get_cell(wbk.Cell('S', wbk.get_column_letter(c), str(r))).value)
+            out.append(outcome_norm(wbk.outcome(lambda: second.get_cell(wbk.Cell('S', wbk.get_column_letter(c), str(r))).value)))
+        out.append(outcome_norm(wbk.outcome(lambda: second.get_cell(wbk.Cell('S', 'A', '1')).value)))
+        seen[name] = out
+    for i, (a_, b_) in enumerate(zip(seen['generated'], seen['hand'])):
+        t = texts[i] if i < len(texts) else 'A1'
+        if a_ != b_ and 'timeout' not in (a_[0], b_[0]) and 'TODAY' not in t:
+            fails.append({'case': {'formulas': [t]}, 'expected': repr(a_)[:300], 'actual': repr(b_)[:300], 'relation': 'hand-written-subclass-computes-the-same',
+                          'bucket': 'hand:second-executor-without-overrides', 'extra': None})
+            break
     return fails
 
 
@@ -266,12 +288,12 @@ def run_case(case):
 def strategies():
     from hypothesis import strategies as st
     blank = st.just({'$blank': 1})
-    ints = st.one_of(st.integers(-5, 40), st.sampled_from([0, 1, 2, -1, 100, 1900, 2024, 12, 31, 10 ** 9]))
+    ints = st.one_of(st.integers(-5, 40), st.sampled_from([0, 1, 2, -1, 100, 1900, 2024, 12, 31, 10 ** 9, 2 ** 53, 2 ** 53 + 1, 9007199254740993, 10 ** 17 + 1, 10 ** 17]))
     floats = st.one_of(st.sampled_from([0.5, 2.5, -1.5, 0.125, 1e-7, 1e16, 1234.5678, 0.0045, 2.675, 1.005, 1e22, -0.0001]),
                        st.integers(-10 ** 6, 10 ** 6).map(lambda k: k / 1000))
     nums = st.one_of(ints, ints, floats)
     words = st.sampled_from(['', 'a', 'abc', 'Apple', 'apple', 'pear', 'a*c', 'a?c', 'a~*c', '*', '?', '~', 'x[y]', '(c?', 'a.b', 'a|b', '12', '1.5', '1,5', '007',
-                             '1 234,56', '10 000', '50%', '1e3', '2.5e-1', 'TRUE', 'nan', 'inf', '#N/A', '#VALUE!', '2024-02-29', '29.02.2024', '12:30', 'Hello World', 'ß', 'x' * 40])
+                             '1 234,56', '10 000', '50%', '1e3', '40817810099910004312', '40817810099910004313', '12345678901234567', '12345678901234568', '2.5e-1', 'TRUE', 'nan', 'inf', '#N/A', '#VALUE!', '2024-02-29', '29.02.2024', '12:30', 'Hello World', 'ß', 'x' * 40])
     dates = st.sampled_from([{'$dt': '2024-02-29T00:00:00'}, {'$dt': '2020-01-31T00:00:00'}, {'$dt': '2023-12-15T10:30:00'}, {'$dt': '2021-03-15T00:00:00'},
                              {'$d': '2022-11-30'}, {'$dt': '1999-12-31T23:59:59'}, {'$dt': '2023-01-31T00:00:00'}, {'$dt': '2023-02-28T00:00:00'}])
     bools = st.booleans()
@@ -292,6 +314,11 @@ def strategies():
     digits = st.one_of(st.integers(-4, 8), st.sampled_from([0, 1, 2, 20, 25, 30]))
     ops = st.sampled_from(['==', '!=', '<', '<=', '>', '>=', '=', '<>'])
     T = st.tuples
+    # operands that differ by less than a double can tell (whole numbers above 2**53, digit-only texts), and near ties
+    near = st.sampled_from([(2 ** 53, 2 ** 53 + 1), (9007199254740993, 9007199254740992), (10 ** 17, 10 ** 17 + 1), ('40817810099910004312', '40817810099910004313'),
+                            ('12345678901234567', '12345678901234568'), (1.5, 1.7), (2, 2.5), (0.1 + 0.2, 0.3), ('Yes', 'YES'), ('abc', 'ABC'), (-1.5, -1),
+                            (1234567890123456.25, 1234567890123456.5), (1.0000000000000002, 1.0), ('5', '05'), ('1000', '1e3')])
+    nearpair = st.tuples(ops, near, st.booleans()).map(lambda t: (t[0], t[1][0], t[1][1]) if t[2] else (t[0], t[1][1], t[1][0]))
 
     def same_len_pair(k):
         return st.integers(0, 6).flatmap(lambda n: T(*[st.lists(scalar.map(lambda v: [v]), min_size=n, max_size=n) for _ in range(k)]))
@@ -299,7 +326,8 @@ def strategies():
         'set_arguments': T(st.lists(T(st.sampled_from(['_0_0_0', '_0_1_1', 'x']), scalar).map(lambda t: {'uid': t[0], 'value': t[1]}), max_size=3)),
         'get_titles': T(), 'get_sheets_size': T(), '_today': T(),
         '_parse_date_obj': T(st.one_of(words, dates, nums, blank)),
-        '_by_operator': T(ops, scalar, scalar), '_compare': T(ops, scalar, scalar),
+        '_by_operator': st.one_of(T(ops, scalar, scalar), T(ops, scalar, scalar), nearpair),
+        '_compare': st.one_of(T(ops, scalar, scalar), T(ops, scalar, scalar), nearpair),
         '_flatten_list': T(deep), '_find_error_in_list': T(flat), '_concat_arrays_values': T(flat, flat),
         '_normalize_float_number': T(st.one_of(floats, nums, st.sampled_from([4.000299999999999, 0.30000000000000004, 1.2345678901234567e-05, 400.03 / 100]))),
         '_only_numeric_list': T(flat, bools), '_only_bool_list': T(flat), '_only_datetime_list': T(flat),
